@@ -551,3 +551,6 @@ REPLAY["C17"] = replay_C17
 from props_c14 import check_C14, replay_C14  # noqa: E402
 REGISTRY["C14"] = check_C14
 REPLAY["C14"] = replay_C14
+from props_c13 import check_C13, replay_C13  # noqa: E402
+REGISTRY["C13"] = check_C13
+REPLAY["C13"] = replay_C13
